@@ -1,6 +1,6 @@
 (* C03 — property theorems only (model: Reader/Model.v, proofs: Reader/Proofs.v and C03/Proofs.v) *)
 From Coq Require Import List String NArith ZArith Bool Sorting.Sorted.
-From Verif Require Import Base.Util Reader.Model Reader.Script Reader.Proofs C03.Check C03.Proofs Reader.Example.
+From Verif Require Import Base.Util Reader.Model Reader.Script Reader.Proofs Reader.Conc C03.Check C03.Proofs C03.ConcProofs C03.SCheck Reader.Example.
 Import ListNotations.
 Local Open Scope string_scope.
 Local Open Scope N_scope.
@@ -18,6 +18,23 @@ Theorem C03_every_history : forall retries ls, safe retries init ls ->
     /\ StronglySorted before (on_chan ch (out s)).
 Proof. intros retries ls S ch. exact (run_CInv retries ls init CInv_init S ch). Qed.
 Print Assumptions C03_every_history.
+
+(* Every schedule: the same for every history of the pack pipeline with its scheduling points (Reader/Conc.v) - any pack may be
+   held after its content phase, before the channel's time is read, or after it has been shifted, before the channel lock is
+   taken, for as long as the other handlers of its downstream channel (and everything else) go on, in any order; the enqueue
+   follows the order in which the ticks are drawn (repair 72be994).  No clock within two packs of 2^64-1 ([csafe]). *)
+Theorem C03_every_schedule : forall retries ls, csafe retries cinit ls ->
+  forall ch, let s := base (crun retries ls) in
+    lts (clock_of s ch) <= cts (clock_of s ch)
+    /\ Forall (fun pk => last_ts pk <= lts (clock_of s ch) /\ closed pk /\ times_agree pk) (on_chan ch (out s))
+    /\ StronglySorted before (on_chan ch (out s)).
+Proof. intros retries ls S ch. destruct (crun_KInv retries ls cinit KInv_init S) as [I _]. exact (I ch). Qed.
+Print Assumptions C03_every_schedule.
+
+(* the invariant behind it is inductive: one scheduled step keeps it, together with the well-formedness of the parked packs *)
+Theorem C03_scheduled_step : forall retries c l, KInv c -> clabel_safe c l -> KInv (cstep retries c l).
+Proof. exact cstep_KInv. Qed.
+Print Assumptions C03_scheduled_step.
 
 (* one label preserves the invariant from any state that has it *)
 Theorem C03_step : forall retries s l, CInv s -> feed_safe s l -> CInv (step retries s l).
@@ -53,5 +70,18 @@ Proof. vm_compute. repeat split. Qed.
 Example C03_premise_met : safe 3 init ex_labels.
 Proof. exact ex_safe. Qed.
 
-(* schedules: cases of h_reader -mode c03s are evaluated with C03.SCheck over the pipeline with scheduling points (Reader/Conc.v) *)
-Require Verif.C03.SCheck.
+(* a pack of collection 1 held before the channel lock while collection 2 (another handler, same downstream channel) emits *)
+Definition ex_c2 : collinfo :=
+  {| ci_id := 102; ci_name := "c2"; ci_tid := 9102; ci_src := [("s2_v0", "s2")]; ci_tgt := [("t_v1", "t")]; ci_parts := [("_default", 8%Z)]; ci_dropped := false |}.
+Definition ex_msg2 (id ts : N) : smsg := {| m_kind := KInsert; m_id := id; m_coll := 102; m_part := 1; m_pname := "_default"; m_ts := ts; m_rows := 1; m_pospch := false |}.
+Definition ex_sched : list clabel :=
+  [CSeq (StartColl ex_coll); CSeq (StartColl ex_c2);
+   CSeq (Feed 101 "c1" "s" {| p_begin := 10; p_end := 20; p_starts := [10]; p_msgs := [ex_msg 1 12] |} []);
+   CPark 101 "c1" "s" {| p_begin := 20; p_end := 30; p_starts := [20]; p_msgs := [ex_msg 2 25] |} [] PLock;
+   CSeq (Feed 102 "c2" "s2" {| p_begin := 500; p_end := 510; p_starts := [500]; p_msgs := [ex_msg2 3 505] |} []);
+   CResume "s"].
+Example C03_schedule_nonvacuous :
+  csafe 3 cinit ex_sched
+  /\ map (fun pk => (ep_coll pk, map e_ts (ep_msgs pk))) (out (base (crun 3 ex_sched))) = [(101%Z, [11; 11; 11]); (102%Z, [501; 501]); (101%Z, [502; 502])]
+  /\ check_C03s {| cc_retries := 3; cc_labels := ex_sched; cc_out := out (base (crun 3 ex_sched)); cc_events := [] |} = true.
+Proof. split; [apply csafeb_sound; vm_compute; reflexivity|]. vm_compute. split; reflexivity. Qed.
